@@ -5,7 +5,7 @@
   arguments; the two variable supplies are aligned through the correspondence of the renamed rule
   variables (`World.addVars`); push-back; call//N; the induction on the fuel.
 -/
-import PrologVerif.Proofs.DCGSem2Rules
+import PrologVerif.Proofs.DCGSem2Late
 namespace PrologVerif.Grammar
 open PrologVerif
 
@@ -220,7 +220,7 @@ theorem rule_simW (strict : Bool) (cfg : Cfg) (gr : Grammar) (n : Nat) (L : Leve
   simp only [Rule.wf, Bool.and_eq_true] at hwf
   obtain ⟨⟨_, hpbwf⟩, hbwf⟩ := hwf
   have hokS : (r.body.rename W.nS).ok strict = true := by rw [ok_rename]; exact hok
-  have hrel : BodyRel W3.Eq (r.body.rename W.nS) (r.body.rename W.nD) := rename_bodyRel strict hv r.body hok hbwf
+  have hrel : BodyRel W3.Eq (r.body.rename W.nS) (r.body.rename W.nD) := rename_bodyRel hv r.body hbwf
   rw [clause_eq]
   unfold denRule
   cases hpb : r.pushback with
@@ -463,65 +463,6 @@ theorem RelG.barrier {strict : Bool} {W : World} {P : Nat → Prop} {φ : World 
     RelG strict W P φ (sBarrier rS) (barrier rD) := by
   cases rS <;> cases rD <;> simp_all [RelG, sBarrier, Grammar.barrier]
 
-/-! ### the two call handlers -/
-
-/-- what `den` does for a non-terminal / run-time body (the handler it passes to `denBody`) -/
-def dynH (cfg : Cfg) (gr : Grammar) (n : Nat) : Dyn → St → Term → Res Out := fun d st l =>
-  match d with
-  | .nt "call" (g :: a :: as) =>
-    match walk st.σ g with
-    | .atom f => den cfg gr n true (.nt f (a :: as)) st l |> barrier
-    | .app f bs => den cfg gr n true (.nt f (bs.toList ++ a :: as)) st l |> barrier
-    | _ => .error (.unsupported "call//N of a non-callable term")
-  | .nt f args =>
-    let rules := gr.filter (fun r => r.name = f ∧ r.args.length = args.length)
-    if rules.isEmpty then .error (.unsupported ("no rule for " ++ f))
-    else match tryRules cfg.uf (den cfg gr n) args st l rules with
-      | .error e => .error e
-      | .ok as => .ok ⟨as, false⟩
-  | .late g =>
-    match resolve cfg.uf st.σ g with
-    | none => .error .fuel
-    | some (.var _) => .error (.unsupported "instantiation_error: unbound run-time body")
-    | some g' =>
-      match Body.ofTerm g' with
-      | .error _ => .error (.unsupported "run-time body is not a grammar body")
-      | .ok b' => den cfg gr n true b' st l
-
-/-- what `solve` does for a goal that is not a control construct (the handler it passes to
-    `solveGoal`) -/
-def callH (uf : Nat) (prog : Program) (n : Nat) : Term → St → Res SOut := fun g st =>
-  match g with
-  | .app "call" (.cons c extra) =>
-    match addArgs (walk st.σ c) extra.toList with
-    | some g' => sBarrier (solve uf prog n g' st)
-    | none => .error (.unsupported "call/N of a non-callable term")
-  | .app "phrase" (.cons b (.cons s0 (.cons s .nil))) =>
-    match resolve uf st.σ b with
-    | none => .error .fuel
-    | some (.var _) => .error (.unsupported "instantiation_error: phrase/3 with an unbound body")
-    | some b' =>
-      match Body.ofTerm b' with
-      | .error _ => .error (.unsupported "phrase/3: not a grammar body")
-      | .ok bb =>
-        let r := bb.tr s0 s st.next
-        sBarrier (solve uf prog n r.1 { st with next := r.2 })
-  | g =>
-    match sig g with
-    | none => .error (.unsupported "goal is not callable")
-    | some (f, k) =>
-      let cs := prog.filter (fun c => sig c.head = some (f, k))
-      if cs.isEmpty then .error (.unsupported ("unknown procedure " ++ f))
-      else match tryClauses uf (solve uf prog n) g st cs with
-        | .error e => .error e
-        | .ok as => .ok ⟨as, false⟩
-
-theorem den_succ (cfg : Cfg) (gr : Grammar) (n : Nat) (top : Bool) (b : Body) (st : St) (l : Term) :
-    den cfg gr (n + 1) top b st l = denBody cfg (dynH cfg gr n) top b st l := rfl
-
-theorem solve_succ (uf : Nat) (prog : Program) (n : Nat) (g : Term) (st : St) :
-    solve uf prog (n + 1) g st = solveGoal uf (callH uf prog n) g st := rfl
-
 theorem callH_user (uf : Nat) (prog : Program) (n : Nat) (f : String) (as : List Term) (x y : Term) (st : St)
     (hf : f ≠ "call") (hp : ¬ (f = "phrase" ∧ as.length = 1)) :
     callH uf prog n (Term.mk f (as ++ [x, y])) st =
@@ -540,14 +481,14 @@ theorem callH_user (uf : Nat) (prog : Program) (n : Nat) (f : String) (as : List
     have := congrArg Args.length h2
     simp [ofList_length, Args.length] at this
     exact absurd ⟨h1, by omega⟩ hp
-  · simp [sig, ofList_length]
+  · simp [sig, ofList_length] <;> rfl
 
 theorem callH_call (uf : Nat) (prog : Program) (n : Nat) (g a : Term) (rest : List Term) (x y : Term) (st : St) :
     callH uf prog n (Term.mk "call" ((g :: a :: rest) ++ [x, y])) st =
       (match addArgs (walk st.σ g) (a :: rest ++ [x, y]) with
        | some g' => sBarrier (solve uf prog n g' st)
        | none => .error (.unsupported "call/N of a non-callable term")) := by
-  simp [Term.mk, Args.ofList, callH, Args.toList]
+  simp [Term.mk, Args.ofList, callH, Args.toList] <;> rfl
 
 theorem dynH_user (cfg : Cfg) (gr : Grammar) (n : Nat) (f : String) (args : List Term) (st : St) (l : Term)
     (hf : f ≠ "call") :
@@ -585,7 +526,34 @@ theorem dynH_call (cfg : Cfg) (gr : Grammar) (n : Nat) (g a : Term) (rest : List
        | .atom f => den cfg gr n true (.nt f (a :: rest)) st l |> barrier
        | .app f bs => den cfg gr n true (.nt f (bs.toList ++ a :: rest)) st l |> barrier
        | _ => .error (.unsupported "call//N of a non-callable term")) := by
-  simp [dynH]
+  simp [dynH] <;> rfl
+
+/-- a non-terminal that clashes is an error of the denotation's handler (no rule has its name) -/
+theorem dynH_special_err (cfg : Cfg) (gr : Grammar) (hgr : ∀ r ∈ gr, special r.name r.args.length = false)
+    (n : Nat) : DynErr (dynH cfg gr n) := by
+  intro f as h st l
+  have hsp : special f as.length = true := by
+    unfold ntOK at h
+    split at h
+    · rename_i hf; subst hf; simp [special]
+    · simpa using h
+  have hshort : f = "call" → as.length < 2 := by
+    intro hf
+    subst hf
+    match as, h with
+    | [], _ => simp
+    | [_], _ => simp
+    | _ :: _ :: _, h => simp [ntOK] at h
+  have hemp : (gr.filter (fun r => decide (r.name = f ∧ r.args.length = as.length))).isEmpty = true := by
+    rw [List.isEmpty_iff, List.filter_eq_nil_iff]
+    intro r hr hd
+    have := of_decide_eq_true hd
+    have hh := hgr r hr
+    rw [this.1, this.2, hsp] at hh
+    cases hh
+  by_cases hf : f = "call"
+  · rw [dynH_short cfg gr n f as st l (hshort hf), hemp]; exact ⟨_, rfl⟩
+  · rw [dynH_user cfg gr n f as st l hf, hemp]; exact ⟨_, rfl⟩
 
 /-- a non-terminal that clashes is an error of the denotation (no rule can have its name) -/
 theorem den_special_err (cfg : Cfg) (gr : Grammar) (hgr : ∀ r ∈ gr, special r.name r.args.length = false)
@@ -639,7 +607,7 @@ theorem nt_level (strict : Bool) (cfg : Cfg) (gr : Grammar) (hgr : ∀ r ∈ gr,
   rcases hok with hok | ⟨hstrict, hno⟩
   · have P : PreW W x l s 0 (0 + (Body.nt f asS).nhid) :=
       ⟨hW, hx, hs, hlt, fun v _ h => by simp [Body.nhid] at h, by simp [Body.nhid], fun h => by simp [Body.nhid] at h⟩
-    have := ih (.nt f asS) hok (.nt f asD) W (.nt has) true x l s 0 P
+    have := ih (.nt f asS) (by simp [Body.ok, hok]) (.nt f asD) W (.nt has) true x l s 0 P
     exact (RelG.barrier this).mono (fun v h => by
       rcases h with h | h
       · exact h
@@ -778,6 +746,179 @@ theorem call_simW (strict : Bool) (cfg : Cfg) (gr : Grammar) (hgr : ∀ r ∈ gr
       intro hr
       cases rS <;> cases rD <;> first | exact hr | exact ⟨rfl, hr⟩
 
+/-! ### call//1, phrase//1, variable bodies -/
+
+theorem callH_call3 (uf : Nat) (prog : Program) (n : Nat) (g x y : Term) (st : St) :
+    callH uf prog n (Term.a3 "call" g x y) st =
+      (match addArgs (walk st.σ g) [x, y] with
+       | some g' => sBarrier (solve uf prog n g' st)
+       | none => .error (.unsupported "call/N of a non-callable term")) := by
+  simp [Term.a3, callH, Args.toList] <;> rfl
+
+theorem callH_phrase3 (uf : Nat) (prog : Program) (n : Nat) (g x y : Term) (st : St) :
+    callH uf prog n (Term.a3 "phrase" g x y) st =
+      (match resolve uf st.σ g with
+       | none => .error .fuel
+       | some (.var _) => .error (.unsupported "instantiation_error: phrase/3 with an unbound body")
+       | some b' =>
+         match Body.ofTerm b' with
+         | .error _ => .error (.unsupported "phrase/3: not a grammar body")
+         | .ok bb => sBarrier (solve uf prog n (bb.tr x y st.next).1 { st with next := (bb.tr x y st.next).2 })) := by
+  simp [Term.a3, callH] <;> rfl
+
+theorem dynH_late (cfg : Cfg) (gr : Grammar) (n : Nat) (g : Term) (st : St) (l : Term) :
+    dynH cfg gr n (.late g) st l =
+      (match resolve cfg.uf st.σ g with
+       | none => .error .fuel
+       | some (.var _) => .error (.unsupported "instantiation_error: unbound run-time body")
+       | some g' =>
+         match Body.ofTerm g' with
+         | .error _ => .error (.unsupported "run-time body is not a grammar body")
+         | .ok b' => den cfg gr n true b' st l) := by
+  simp [dynH] <;> rfl
+
+/-- a non-terminal goal one level of fuel lower on the SLD side than in the denotation -/
+theorem nt_call1 (cfg : Cfg) (gr : Grammar) (hgr : ∀ r ∈ gr, special r.name r.args.length = false) (n : Nat)
+    (CW : CallW false (dynH cfg gr n) (callH cfg.uf (programOf gr) n)) (f : String) (asS asD : List Term)
+    {W : World} (hW : W.Good) {x l : Term} {s : Nat} (hx : W.Eq x l) (has : All2 W.Eq asS asD)
+    (hs : ¬ W.TS s) (hlt : s < W.nS) :
+    RelW false W (fun v => v = s) s
+      (sBarrier (solve cfg.uf (programOf gr) n (Term.mk f (asS ++ [x, .var s])) W.stS))
+      (barrier (dynH cfg gr n (.nt f asD) W.stD l)) := by
+  cases hS : solve cfg.uf (programOf gr) n (Term.mk f (asS ++ [x, .var s])) W.stS with
+  | error e => exact RelG.errS (fun h => Bool.noConfusion h) _
+  | ok A =>
+    have hS' := solve_mono cfg.uf (programOf gr) n _ _ A hS
+    rw [solve_succ] at hS'
+    cases hnt : ntOK false f asS with
+    | true =>
+      rw [solveGoal_nt _ _ _ _ _ _ _ (ntOK_ctl hnt)] at hS'
+      have := CW f asS asD hnt W hW x l s hx has hs hlt
+      rw [hS'] at this
+      exact RelG.barrier this
+    | false =>
+      obtain ⟨e, he⟩ := dynH_special_err cfg gr hgr n f asD
+        (by rw [← ntOK_false_len f has.length_eq]; exact hnt) W.stD l
+      rw [he]
+      exact RelG.errD rfl _
+
+theorem call1_simW (cfg : Cfg) (gr : Grammar) (hgr : ∀ r ∈ gr, special r.name r.args.length = false) (n : Nat)
+    (CW : CallW false (dynH cfg gr n) (callH cfg.uf (programOf gr) n)) :
+    Call1W (dynH cfg gr n) (callH cfg.uf (programOf gr) n) := by
+  intro gS gD W hW x l s hx hg hs hlt
+  rw [callH_call3]
+  unfold denCall1
+  have hσS : W.stS.σ = W.σS := rfl
+  have hσD : W.stD.σ = W.σD := rfl
+  rw [hσS, hσD]
+  have hgg := (W.Eq_unfold gS gD).1 hg
+  revert hgg
+  cases hwS : walk W.σS gS with
+  | atom f' =>
+    intro hgg
+    have hwD : walk W.σD gD = .atom f' := by
+      revert hgg; generalize walk W.σD gD = w; intro hgg; cases hgg; rfl
+    rw [hwD]
+    simp only [addArgs]
+    exact nt_call1 cfg gr hgr n CW f' [] [] hW hx .nil hs hlt
+  | app f' bsS =>
+    intro hgg
+    obtain ⟨bsD, hwD, hbs⟩ : ∃ bsD, walk W.σD gD = .app f' bsD ∧ ArgsRel W.Eq bsS bsD := by
+      revert hgg; generalize walk W.σD gD = w; intro hgg
+      cases hgg with
+      | app r => exact ⟨_, rfl, r⟩
+    rw [hwD]
+    simp only [addArgs]
+    exact nt_call1 cfg gr hgr n CW f' bsS.toList bsD.toList hW hx (argsRel_toList hbs) hs hlt
+  | var a => intro _; simp only [addArgs]; exact RelG.errS (fun h => Bool.noConfusion h) _
+  | int a => intro _; simp only [addArgs]; exact RelG.errS (fun h => Bool.noConfusion h) _
+  | flt a => intro _; simp only [addArgs]; exact RelG.errS (fun h => Bool.noConfusion h) _
+  | str a => intro _; simp only [addArgs]; exact RelG.errS (fun h => Bool.noConfusion h) _
+
+/-- the world with `k` more variables reserved on the SLD side (the hidden variables of a body
+    translated at run time) -/
+def World.bumpS (W : World) (k : Nat) : World := { W with nS := W.nS + k }
+
+theorem World.bumpS_eq {W : World} (k : Nat) {t u : Term} (h : W.Eq t u) : (W.bumpS k).Eq t u := by
+  intro j
+  have := h j
+  clear h
+  induction j generalizing t u with
+  | zero => trivial
+  | succ j ih =>
+    unfold Sim at this ⊢
+    exact Sim1.mono this (fun _ _ r => r) (fun a b r => ih r)
+
+theorem World.bumpS_ok {W : World} (hW : W.Good) (k : Nat) :
+    (W.bumpS k).Good ∧ Step W (W.bumpS k) (fun _ => False) :=
+  ⟨⟨hW.fn, hW.inj, fun v hv => Nat.lt_of_lt_of_le (hW.scS v hv) (Nat.le_add_right _ _), hW.scD, hW.unb⟩,
+    ⟨fun _ _ h => World.bumpS_eq k h, ⟨[], rfl⟩, ⟨[], rfl⟩, Nat.le_add_right _ _, Nat.le_refl _,
+      fun _ h => .inl h, fun _ h => .inl h⟩⟩
+
+/-- the body read at run time, once both sides have resolved it -/
+theorem late_core (cfg : Cfg) (gr : Grammar) (n : Nat) (ih : LevelW false cfg gr n)
+    {W : World} (hW : W.Good) {x l : Term} {s : Nat} (hx : W.Eq x l) (hs : ¬ W.TS s) (hlt : s < W.nS)
+    {tS tD : Term} (ht : TRel W.ρ tS tD) :
+    RelW false W (fun v => v = s) s
+      (match Body.ofTerm tS with
+       | .error _ => .error (.unsupported "phrase/3: not a grammar body")
+       | .ok bb => sBarrier (solve cfg.uf (programOf gr) n (bb.tr x (.var s) W.stS.next).1
+           { W.stS with next := (bb.tr x (.var s) W.stS.next).2 }))
+      (barrier (match Body.ofTerm tD with
+       | .error _ => .error (.unsupported "run-time body is not a grammar body")
+       | .ok b' => den cfg gr n true b' W.stD l)) := by
+  have ho := ofTerm_sim tS tD ht
+  revert ho
+  cases hoS : Body.ofTerm tS with
+  | error e => intro _; exact RelG.errS (fun h => Bool.noConfusion h) _
+  | ok bb =>
+    cases hoD : Body.ofTerm tD with
+    | error e => intro ho; exact ho.elim
+    | ok b' =>
+      intro ho
+      simp only []
+      obtain ⟨g1, st1⟩ := World.bumpS_ok hW bb.nhid
+      have hrel : BodyRel (W.bumpS bb.nhid).Eq bb b' := (BodyRel.mono ho (fun a b h => st1.eq _ _ (trel_eq hW a b h)))
+      have P : PreW (W.bumpS bb.nhid) x l s W.nS (W.nS + bb.nhid) :=
+        ⟨g1, st1.eq _ _ hx, hs, Nat.lt_of_lt_of_le hlt (Nat.le_add_right _ _),
+          fun v h1 _ ht => by have := hW.scS v ht; omega, Nat.le_refl _, fun h => by omega⟩
+      have := ih bb (ofTerm_ok tS bb hoS) b' (W.bumpS bb.nhid) hrel true x l s W.nS P
+      have e1 : ({ W.stS with next := (bb.tr x (.var s) W.stS.next).2 } : St) = (W.bumpS bb.nhid).stS := by
+        rw [tr_next]; rfl
+      rw [e1]
+      exact RelG.rebase' (RelG.barrier this) st1 (fun _ h => h.elim) (fun v h => by
+        rcases h with h | h
+        · exact .inl h
+        · exact .inr h.1)
+
+theorem late_simW (cfg : Cfg) (gr : Grammar) (n : Nat) (ih : LevelW false cfg gr n) :
+    LateW (dynH cfg gr n) (callH cfg.uf (programOf gr) n) := by
+  intro gS gD W hW x l s hx hg hs hlt
+  rw [callH_phrase3, dynH_late]
+  have hσS : W.stS.σ = W.σS := rfl
+  have hσD : W.stD.σ = W.σD := rfl
+  rw [hσS, hσD]
+  have hres := resolve_sim W cfg.uf gS gD (hg cfg.uf)
+  revert hres
+  cases resolve cfg.uf W.σS gS with
+  | none =>
+    cases resolve cfg.uf W.σD gD with
+    | none => intro _; trivial
+    | some _ => intro h; exact h.elim
+  | some tS =>
+    cases resolve cfg.uf W.σD gD with
+    | none => intro h; exact h.elim
+    | some tD =>
+      intro ht
+      have ht' : TRel W.ρ tS tD := ht
+      cases ht' with
+      | var r => trivial
+      | atom a => exact late_core cfg gr n ih hW hx hs hlt (.atom a)
+      | int a => exact late_core cfg gr n ih hW hx hs hlt (.int a)
+      | flt a => exact late_core cfg gr n ih hW hx hs hlt (.flt a)
+      | str a => exact late_core cfg gr n ih hW hx hs hlt (.str a)
+      | app r => exact late_core cfg gr n ih hW hx hs hlt (.app r)
+
 /-- **semantic preservation, at every fuel level** -/
 theorem level_simW (strict : Bool) (cfg : Cfg) (hcfg : cfg.engine = false) (gr : Grammar)
     (hgr : ∀ r ∈ gr, GoodRuleW strict r) : ∀ n, LevelW strict cfg gr n := by
@@ -787,6 +928,12 @@ theorem level_simW (strict : Bool) (cfg : Cfg) (hcfg : cfg.engine = false) (gr :
   | succ n ih =>
     intro bS hok bD W hrel top x l s m P
     rw [solve_succ, den_succ]
-    exact body_simW cfg hcfg strict _ _ (call_simW strict cfg gr hgr n ih) bS hok bD W hrel top x l s m P
+    have hsp : ∀ r ∈ gr, special r.name r.args.length = false := fun r hr => (hgr r hr).1
+    refine body_simW cfg hcfg strict _ _ (call_simW strict cfg gr hgr n ih) (fun _ => dynH_special_err cfg gr hsp n)
+      (fun hs => ?_) (fun hs => ?_) bS hok bD W hrel top x l s m P
+    · subst hs
+      exact call1_simW cfg gr hsp n (call_simW false cfg gr hgr n ih)
+    · subst hs
+      exact late_simW cfg gr n ih
 
 end PrologVerif.Grammar
